@@ -62,7 +62,7 @@ class TextContent(BaseModel):
 
     text: str = Field(..., description="The text content")
     font: int = Field(default=1, description="Font index")
-    size: int = Field(default=9, description="Font size")
+    size: float = Field(default=9, description="Font size in points")
     format: str | None = Field(
         default=None,
         description=(
@@ -132,7 +132,7 @@ class TextContent(BaseModel):
         rtf = []
 
         # Size (RTF uses half-points)
-        rtf.append(f"\\fs{self.size * 2}")
+        rtf.append(f"\\fs{RTFMeasurements.point_to_halfpoint(self.size)}")
 
         # Font
         rtf.append(f"{{\\f{int(self.font - 1)}")
